@@ -323,12 +323,22 @@ func FuzzC13Image(f *testing.F) {
 			f.Add(b)
 		}
 	}
+	for i := 0; i < 400; i++ {
+		if c := rapid.Custom(genCase).Example(i); c.Entry == "image" && len(c.Input) <= 1<<16 {
+			f.Add([]byte(c.Input))
+		}
+	}
 	f.Fuzz(hx.FuzzBody("C13", "FuzzC13Image", fuzzImage))
 }
 
 func FuzzC13PKCS7(f *testing.F) {
 	for _, fx := range seeds.Fixtures() {
 		f.Add(fx.Blob)
+	}
+	for i := 0; i < 400; i++ {
+		if c := rapid.Custom(genCase).Example(i); c.Entry != "image" && len(c.Input) <= 1<<16 {
+			f.Add([]byte(c.Input))
+		}
 	}
 	f.Fuzz(hx.FuzzBody("C13", "FuzzC13PKCS7", fuzzPKCS7))
 }
